@@ -5,6 +5,7 @@ import (
 	"calcsa/engines/lexfsm"
 	"calcsa/engines/own"
 	"calcsa/engines/pipeline"
+	"calcsa/engines/strw"
 	"calcsa/engines/txn"
 	"calcsa/engines/valtab"
 	"calcsa/engines/vmshape"
@@ -20,6 +21,8 @@ func init() {
 	engineKinds["own"] = "symbolic effects of every memory.Type method (fields, element stores, results) compared with the frame layout, growth and ownership rules"
 	RegisterEngine(&Engine{Name: "pipeline", Run: pipeline.Run})
 	engineKinds["pipeline"] = "must-pass-through and provenance rules on the drivers' SSA; node.Loop interpreted abstractly for two reads"
+	RegisterEngine(&Engine{Name: "strw", Run: strw.Run})
+	engineKinds["strw"] = "abstract interpretation of every STRewrite method with opaque children over symbol tables enumerating which scopes define a name"
 	RegisterEngine(&Engine{Name: "txn", Run: txn.Run})
 	engineKinds["txn"] = "typestate of Snapshot/Rollback/Commit on every path of every combinator closure against an abstract input; symbolic effect of the TLexer primitives"
 	RegisterEngine(&Engine{Name: "valtab", Run: valtab.Run})
@@ -121,6 +124,23 @@ func init() {
 		Technique:  "must-pass-through / provenance rules on the SSA of the three drivers; abstract interpretation of node.Loop over two reads",
 		Decides:    "that -eval, REPL and script mode run the same Parse -> STRewrite -> ByteCode -> Run chain over every statement of the parse result and nothing after a parse error; that the script reader loses no line (length, missing final line break); that the boundary heuristic counts on the text it parses.",
 		NotDecided: "equality of output between modes; that the boundary heuristic splits a script exactly as the grammar would (it does not: known finding D20).",
+	})
+	RegisterSpec(&Spec{
+		ID: "C04", Title: "Lexical scoping and isolation: a call cannot disturb its caller",
+		Rules: []RuleRef{
+			{"strw", "S1", 20, "every node rewrites into the same node with each child resolved from the same child under the same table"},
+			{"strw", "S2", 15, "a read resolves to the own variable, else to the immediately enclosing function's, else to the global"},
+			{"strw", "S3", 6, "assignments and loop variables inside a function always target the function's own slot; the right-hand side / iterators are resolved first"},
+			{"strw", "S4", 2, "a function literal opens a fresh scope with its parameters at 0..n-1; LocalCnt covers every slot handed out"},
+			{"vmshape", "O7", 2, "only MOV and INC write variables, Set for locals and SetGlobal for globals"},
+			{"vmshape", "V7", 6, "CALL pushes frame+closure+return address, RET pops them symmetrically"},
+			{"vmshape", "V13", 2, "a returned function value is detached from the dying frame"},
+			{"vmshape", "V13b", 1, "function values nested in a returned array are detached too"},
+		},
+		Technique:  "abstract interpretation of every STRewrite method (opaque children, enumerated scope membership); VM handler effects for variable writes and call/return",
+		Decides:    "for every node type and every combination of scopes defining a name (table depth 0..3): what a read, an assignment, a loop variable and a function literal are rewritten to; that only MOV/INC write variables and locals/globals go to Set/SetGlobal; call/return symmetry and frame detachment of returned functions.",
+		NotDecided: "the run-time consequence for every program (closures escaping through yield, behaviour once the captured-frame aliasing of C03 bites); that the compiler maps Local/Closure/Name to Lcl/Cls/Gbl operands (compiler rules).",
+		Assumptions: []string{"the rewrite of a name depends only on which scopes contain that name and at which index (data independence in the other names)"},
 	})
 	RegisterSpec(&Spec{
 		ID: "C19", Title: "Runtime error reports point at the real failure",
